@@ -58,7 +58,7 @@ def _common_hook(prog, notes):
 
 def update_post(prog: Program, at_frame: bool, has_next: bool):
     """Abstract post-state of Forcing.update for one case of the two structural tests."""
-    fi = prog.role_func("forcing", "update")
+    fi = prog.lview(prog.role_func("forcing", "update"), keep=("_read_velocity", "_read_field", "_select_file"))
     dom = NFDomain(scalars={"step"})
     notes: dict = {"undecided": []}
     hook = _common_hook(prog, notes)
@@ -394,7 +394,9 @@ def fractional(prog: Program, rep: Report) -> None:
 
 def step_tables(prog: Program, rep: Report) -> None:
     rule = "R03.7"
-    fi = prog.func("ROMS.forcing_steps")
+    from ..program import lower_comprehension_loops, record_ctor_as_tuple
+
+    fi = lower_comprehension_loops(prog.lview("ROMS.forcing_steps"))
     outer = [n for n in fi.node.body if isinstance(n, ast.For)]
     nest = None
     for o in outer:
@@ -506,7 +508,7 @@ def step_tables(prog: Program, rep: Report) -> None:
     comp = [n for n in walk_no_nested(fi.node) if isinstance(n, ast.ListComp) and "time2step" in unparse(n)]
     rep.check(rule, fi.qual, "steps = [time2step(t) for t in all_frames]", ok or bool(comp), what_bad="the step of a frame must be timer.time2step(frame time), in frame order", what_ok="time2step per frame", loc=fi.loc())
     ret = [n for n in walk_no_nested(fi.node) if isinstance(n, ast.Return)]
-    rep.check(rule, fi.qual, "returns (steps, file_idx, frame_idx)", len(ret) == 1 and unparse(ret[0].value) in ("(steps, file_idx, frame_idx)", "steps, file_idx, frame_idx"), what_bad=f"returns {unparse(ret[0].value) if ret else None}", what_ok="ok", loc=fi.loc())
+    rep.check(rule, fi.qual, "returns (steps, file_idx, frame_idx)", len(ret) == 1 and unparse(record_ctor_as_tuple(prog, fi, ret[0].value)) in ("(steps, file_idx, frame_idx)", "steps, file_idx, frame_idx"), what_bad=f"returns {unparse(ret[0].value) if ret else None}", what_ok="ok", loc=fi.loc())
 
 
 def run(prog: Program, rep: Report, tier: str) -> None:
